@@ -65,7 +65,7 @@ def observe(sess, hist, op, exc, valid, reason, pre, acc):
 _shard = kcommon.make_run(__name__, "observe", extra_ops=kcommon.long_comment_ops)
 
 
-_chain = kcommon.make_chain_run(__name__, "observe", extra_ops=kcommon.long_comment_ops)
+_chain = kcommon.make_chain_run(__name__, "observe", extra_ops=kcommon.long_comment_ops, faults=True)
 
 
 def run(tier):
